@@ -144,7 +144,12 @@ def gcd32(it, x, y, w=32):
     if not is_sym(x) and not is_sym(y):
         return math.gcd(x, y)
     if is_sym(x) and is_sym(y):
-        raise Unsupported('gcd of two symbolic integers (use a concrete denominator / divisor palette)')
+        try:
+            y = it.concretize(y, limit=16)          # tiny domains only (e.g. a one-digit literal)
+        except Unsupported:
+            raise Unsupported('gcd of two symbolic integers (use a concrete denominator / divisor palette)')
+        if y >= 1 << (w - 1): y -= 1 << w
+        return gcd32(it, x, y, w)
     s, c = (x, y) if is_sym(x) else (y, x)
     if c == 0:
         # gcd(x, 0) = |x|
